@@ -298,11 +298,112 @@ def rule_c(ctx: Context, R: Reporter):
                             f"common): the index runs past the cluster's rows and the fit raises instead of returning", key=f"inverse-cdf-unclamped:{m.short}")
 
 
+def rule_e(ctx: Context, R: Reporter, fit: FuncInfo):
+    """C19.e  per-coordinate scaling (x_i -> d_i x_i, an independent unit per coordinate): covariance typing of
+    the fit.  With the data typed (samples, d_i) the location must come out as d_i, the scale matrix as
+    d_i d_j and the degrees of freedom as unit-free, and nothing on the way may mix entries of different
+    units (trace of the covariance, a ridge c * identity added to it, a mean over coordinates, a
+    transcendental function or a threshold applied to a scaled quantity)."""
+    from ..coord import INVC, CoordInterp, co
+
+    ci = CoordInterp(lambda c: ctx.res.external_name(fit, c))
+    rets = ci.run(fit.node, {fit.params[0]: co(None, 1)})
+    want = [co(1), co(1, 1), INVC]
+    n = 0
+    for (r, t) in rets:
+        if t.kind != "tuple" or len(t.items) != 3:
+            if ci.conflicts:
+                continue
+            raise AnalysisError(f"C19.e: return `{unparse(r)[:50]}` not typed as a triple ({t!r})")
+        for i, (c, w) in enumerate(zip(t.items, want)):
+            n += 1
+            if c.kind in ("unknown", "conflict"):
+                if ci.conflicts:
+                    continue
+                raise AnalysisError(f"C19.e: return component {i} not typable under per-coordinate scaling ({c.why})")
+            got = tuple(0 if a is None else a for a in c.axes)
+            ok = c.kind == "arr" and got == tuple(0 if a is None else a for a in w.axes)
+            R.check("C19.e", f"fit result component {i} transforms like {w!r} under per-coordinate scaling", ok, fit, r,
+                    msg=f"{fit.short}: component {i} of `{unparse(r)[:50]}` has type {c!r}; equivariance under per-coordinate scaling requires {w!r}", key=f"coord-type:{i}:{norm_text(r.value)[:30]}")
+    seen = set()
+    for c in ci.conflicts:
+        k = norm_text(c.node)[:80] if c.node is not None else c.why
+        if k in seen:
+            continue
+        seen.add(k)
+        R.check("C19.e", "the fit never mixes entries that carry the units of different coordinates", False, fit, c.node if c.node is not None else fit.node,
+                msg=f"{fit.short}: {c.why} at `{unparse(c.node)[:70] if c.node is not None else ''}`: the result changes (beyond D Sigma D / D mu) when the coordinates are rescaled "
+                    f"independently -- the sampler fits in unit-cube coordinates whose scales differ by orders of magnitude", key=f"coord-conflict:{k}")
+    if not ci.conflicts:
+        R.check("C19.e", "per-coordinate typing of the fit closed without conflicts", True, fit, fit.node, key="coord-clean")
+    R.floor("C19.e", "typed return components (per-coordinate)", n, 6)
+    R.analysed["C19.e:unknown_ops"] = sorted({u.why for u in ci.unknowns})[:10]
+
+
+def rule_d(ctx: Context, R: Reporter):
+    """C19.d  the mode factories do not depend on the absolute scale of the particle weights: degree typing under
+    weights -> s * weights of both factories (helpers inlined).  A sub-vector of globally normalised
+    weights (one cluster's weights) is an arbitrarily scaled weight vector, so an absolute threshold or a
+    closeness test with an absolute tolerance on the weights makes a low-mass cluster behave differently
+    from a high-mass one."""
+    from .c14 import mode_class
+
+    mc = mode_class(ctx)
+    facs = [m for m in mc.methods.values() if m.is_classmethod and "weights" in m.params]
+    R.floor("C19.d", "mode factories taking weights", len(facs), 2)
+    for m in facs:
+        def internal(call, m=m):
+            f = call.func
+            if isinstance(f, ast.Attribute) and isinstance(f.value, ast.Name) and f.value.id in ("cls", "self", mc.name):
+                t = ctx.prog.mro_lookup(mc, f.attr)
+                if t is not None and not t.is_classmethod or (t is not None and t is not m and f.attr.startswith("_")):
+                    return (t.node, (lambda c, t=t: ctx.res.external_name(t, c)), not t.is_staticmethod)
+            return None
+
+        extra = {
+            "numpy.random.choice": lambda di, e, args: INV,
+            "numpy.tile": lambda di, e, args: args[0] if args else INV,
+            "numpy.repeat": lambda di, e, args: args[0] if args else INV,
+            "numpy.unique": lambda di, e, args: args[0] if args else INV,
+            "numpy.searchsorted": lambda di, e, args: INV,
+        }
+        for c in calls_in(m.node):
+            for t in ctx.res.call_targets(m, c):
+                if isinstance(t, FuncInfo) and t.cls is None:
+                    extra[f"{t.module.name}.{t.name}"] = lambda di, e, args: T("tuple", [INV, INV, INV])
+        class _SubMass(DegreeInterp):
+            # a sub-vector of a normalised weight vector (one cluster's weights) carries its own free scale: the cluster's mass
+            def eval(self, e, env):
+                if isinstance(e, ast.Subscript) and not isinstance(e.slice, (ast.Constant, ast.Slice)):
+                    b = DegreeInterp.eval(self, e.value, env)
+                    if b.kind == "deg" and b.norm:
+                        return deg(1)
+                return DegreeInterp.eval(self, e, env)
+
+        di = _SubMass(lambda c, m=m: (ctx.res.external_name(m, c) or next((f"{t.module.name}.{t.name}" for t in ctx.res.call_targets(m, c) if isinstance(t, FuncInfo) and t.cls is None), None)),
+                          weight_params=("weights",), internal=internal, extra_degrees=extra)
+        di.run(m.node)
+        seen = set()
+        for c in di.conflicts:
+            k = norm_text(c.node)[:80] if c.node is not None else c.why
+            if k in seen:
+                continue
+            seen.add(k)
+            R.check("C19.d", f"{m.short}: nothing compares the particle weights with an absolute constant", False, m, c.node if c.node is not None else m.node,
+                    msg=f"{m.short}: {c.why} at `{unparse(c.node)[:70] if c.node is not None else ''}`: the weighted resampling before the Student-t fit depends on the total mass of the "
+                        f"cluster, so a low-mass mode is fitted from differently (e.g. uniformly) weighted particles", key=f"weight-scale-conflict:{m.name}:{k}")
+        if not di.conflicts:
+            R.check("C19.d", f"{m.short} is invariant under rescaling of the particle weights (degree typing closed)", True, m, m.node, key=f"weight-scale-clean:{m.name}")
+        R.analysed[f"C19.d:{m.name}.unknown_ops"] = sorted({u.why for u in di.unknowns})[:10]
+
+
 def run(ctx: Context, R: Reporter):
     fit = fit_fn(ctx)
     R.guard(rule_a, ctx, R, fit)
     R.guard(rule_b, ctx, R, fit)
     R.guard(rule_c, ctx, R)
+    R.guard(rule_e, ctx, R, fit)
+    R.guard(rule_d, ctx, R)
 
 
 def variants():
@@ -323,5 +424,11 @@ def variants():
         Variant("b-absolute-floor", "bad", replace_expr(st, "fit_mvstud", "np.var(data, axis=1)", "np.maximum(np.var(data, axis=1), 1e-08)"), ["C19.b"], quick=True),
         Variant("b-absolute-ridge", "bad", replace_expr(st, "fit_mvstud", "1 / n * np.diag(np.var(data, axis=1))", "1e-06 * np.eye(dim)"), ["C19.b"]),
         Variant("c-wrong-array", "bad", replace_expr(md, "ModeStatistics.from_particles", "u_cluster[idx_resample]", "u[idx_resample]"), ["C19.c"], quick=True),
+        Variant("e-trace-shrinkage", "bad", replace_stmt(st, "fit_mvstud", "nu = 20", "Sigma = 0.9 * Sigma + 0.1 * np.trace(Sigma) / dim * np.eye(dim)\nnu = 20"), ["C19.e"], quick=True),
+        Variant("e-relative-ridge", "bad", replace_expr(st, "fit_mvstud", "1 / n * np.diag(np.var(data, axis=1))", "1 / n * np.mean(np.var(data, axis=1)) * np.eye(dim)"), ["C19.e"]),
+        Variant("e-location-global-median", "bad", replace_expr(st, "fit_mvstud", "np.median(data, 1)", "np.median(data, 1) * 0 + np.median(data)"), ["C19.e"]),
+        Variant("e-benign-diag-ridge-spelled-with-std", "benign", replace_expr(st, "fit_mvstud", "np.diag(np.var(data, axis=1))", "np.diag(np.std(data, axis=1) ** 2)")),
+        Variant("d-uniform-shortcut-absolute", "bad", replace_stmt(md, "ModeStatistics.from_particles", "weights_cluster = weights_cluster / np.sum(weights_cluster)", "uniform = np.allclose(weights_cluster, weights_cluster[0])\nweights_cluster = np.ones(len(weights_cluster)) / len(weights_cluster) if uniform else weights_cluster / np.sum(weights_cluster)"), ["C19.d"], quick=True),
+        Variant("d-benign-uniform-shortcut-relative", "benign", replace_stmt(md, "ModeStatistics.from_particles", "weights_cluster = weights_cluster / np.sum(weights_cluster)", "weights_cluster = weights_cluster / np.sum(weights_cluster)\nuniform = np.allclose(weights_cluster * len(weights_cluster), 1.0)")),
         Variant("benign-rename-dof", "benign", alpha_rename(md, "ModeStatistics.from_global", "dof", "nu"), quick=True),
     ]
